@@ -48,3 +48,37 @@ package dns
 // RFC 4034 3.1.8.1 / 2.1: RRSIG RDATA without the signature, DNSKEY RDATA
 //@ wirefmt packSigWire TypeCovered:u16 Algorithm:u8 Labels:u8 OrigTtl:u32 Expiration:u32 Inception:u32 KeyTag:u16 SignerName:pubname [C10]
 //@ wirefmt packKeyWire Flags:u16 Protocol:u8 Algorithm:u8 PublicKey:b64 [C10 C17]
+
+// ---- RRSIG signing and validation (C10) ----
+
+// canonical ordering (RFC 4034 6.3): records are compared by RDATA only, i.e. from ten octets past the
+// end of the owner name (type, class, TTL, RDLENGTH), as left-justified octet strings
+//@ func (wireSlice).Less [C10]
+//@   opt no-safety
+//@   exit rdatai: same(callarg("Compare", 0), p[i][ioff+10:])
+//@   exit rdataj: same(callarg("Compare", 1), p[j][joff+10:])
+//@   exit order: ret0 == (callres("Compare") < 0)
+
+// Verify's pre-checks: success implies the key is a zone key with protocol 3 whose tag, algorithm, class and
+// owner match the RRSIG, and the RRset is a single RRset of the covered type and class
+//@ func (*RRSIG).Verify [C10]
+//@   opt no-safety
+//@   requires rr != nil && k != nil
+//@   exit rrset: ret0 == nil ==> callres("IsRRset")
+//@   exit key: ret0 == nil ==> rr.Hdr.Class == k.Hdr.Class && rr.Algorithm == k.Algorithm && k.Protocol == 3 && (k.Flags / 256) % 2 == 1
+//@   exit tag: ret0 == nil ==> rr.KeyTag == callres("KeyTag")
+//@   exit cover: ret0 == nil ==> h0.Class == rr.Hdr.Class && h0.Rrtype == rr.TypeCovered
+//@   assert at "n, err := packSigWire(sigwire, signeddata)" sigvars: sigwire.TypeCovered == rr.TypeCovered && sigwire.Algorithm == rr.Algorithm && sigwire.Labels == rr.Labels && sigwire.OrigTtl == rr.OrigTtl && sigwire.Expiration == rr.Expiration && sigwire.Inception == rr.Inception && sigwire.KeyTag == rr.KeyTag
+
+//@ func (*RRSIG).signAsIs [C10]
+//@   opt no-safety
+//@   requires rr != nil
+//@   assert at "n, err := packSigWire(sigwire, signdata)" sigvars: sigwire.TypeCovered == rr.TypeCovered && sigwire.Algorithm == rr.Algorithm && sigwire.Labels == rr.Labels && sigwire.OrigTtl == rr.OrigTtl && sigwire.Expiration == rr.Expiration && sigwire.Inception == rr.Inception && sigwire.KeyTag == rr.KeyTag
+
+// Sign fills the RRSIG from the first record of the set; the wildcard label "*" is not counted (RFC 4034 3.1.3)
+//@ spec wildowner(s string) bool = len(s) >= 2 && s[0] == '*' && s[1] == '.'
+//@ func (*RRSIG).Sign [C10]
+//@   opt no-safety
+//@   requires rr != nil && len(rrset) > 0
+//@   assert at "return rr.signAsIs(k, rrset)" fields: rr.Hdr.Rrtype == 46 && rr.Hdr.Name == h0.Name && rr.Hdr.Class == h0.Class && rr.TypeCovered == h0.Rrtype
+//@   assert at "return rr.signAsIs(k, rrset)" labels: rr.Labels == (callres("CountLabel") - (wildowner(h0.Name) ? 1 : 0)) % 256
